@@ -30,6 +30,16 @@ func initWidePool() bool {
 		a[len(a)-1] = byte(i) ^ 0x55
 		widePool = append(widePool, a)
 	}
+	// three addresses whose byte order and Hex() order disagree pairwise, inserted in byte order
+	// (first bytes 0xc5, 0xca, 0xcb lie between entries 19 (0xc3) and 20 (0xcd)): indices 20, 21, 22
+	t, ok := findCaseTriple(2)
+	if !ok {
+		return false
+	}
+	widePool = append(append(append([]common.Address{}, widePool[:20]...), t[0], t[1], t[2]), widePool[20:]...)
+	if !hexDisagree(widePool[20], widePool[21]) || !hexDisagree(widePool[21], widePool[22]) {
+		return false
+	}
 	for i := 1; i < len(widePool); i++ {
 		if bytes.Compare(widePool[i-1][:], widePool[i][:]) >= 0 {
 			return false
@@ -49,9 +59,11 @@ func usePool(p []common.Address) {
 // wideNewAddrs: new addresses are taken in this order: below the existing validators (which sit at
 // pool indices initOrder[0..1] = 2,3), above them, then upwards.
 func wideNewAddrs() []int {
-	out := []int{1, 4, 0}
+	out := []int{21, 20, 22, 1, 4, 0} // the case-adversarial triple first: equal-power newcomers tie
 	for i := 5; i < len(widePool); i++ {
-		out = append(out, i)
+		if i < 20 || i > 22 {
+			out = append(out, i)
+		}
 	}
 	return out
 }
